@@ -3,17 +3,18 @@
 # property's check and expects exit 1 with a VIOLATION line; reverts the change. Run after every engine or contract
 # change (takes a few minutes). /repo must have no uncommitted changes.
 cd "$(dirname "$0")/.."
-if [ -n "$(git -C /repo status --porcelain)" ]; then echo "refusing: /repo has uncommitted changes"; exit 2; fi
+REPO=${REPO:-/repo}   # a scratch checkout of /repo's HEAD may stand in (vp run --with-repo: REPO=$VP_RUN_REPO)
+if [ -n "$(git -C $REPO status --porcelain)" ]; then echo "refusing: /repo has uncommitted changes"; exit 2; fi
 bad=0
 for d in seeded/*; do
   id=$(basename $d); prop=${id%%_*}
-  git -C /repo apply $PWD/$d/patch.diff || { echo "$id: patch does not apply"; bad=1; continue; }
+  git -C $REPO apply $PWD/$d/patch.diff || { echo "$id: patch does not apply"; bad=1; continue; }
   cp evidence/$prop.json /tmp/evidence_keep_$prop.json 2>/dev/null
-  out=$(./check $prop 2>&1); rc=$?
+  out=$(./check $prop --repo $REPO 2>&1); rc=$?
   cp /tmp/evidence_keep_$prop.json evidence/$prop.json 2>/dev/null
-  git -C /repo apply -R $PWD/$d/patch.diff
+  git -C $REPO apply -R $PWD/$d/patch.diff
   if [ $rc -eq 1 ] && echo "$out" | grep -q "^VIOLATION property=$prop"; then echo "$id: caught ($(echo "$out" | grep -c '^VIOLATION') violation lines)"; else echo "$id: NOT CAUGHT (rc=$rc)"; bad=1; fi
 done
 # and the unchanged tree must be quiet
-./tools/runall.sh > /tmp/selftest_runall.log 2>&1 || { echo "unchanged tree not clean, see /tmp/selftest_runall.log"; bad=1; }
+./tools/runall.sh --repo $REPO > /tmp/selftest_runall.log 2>&1 || { echo "unchanged tree not clean, see /tmp/selftest_runall.log"; bad=1; }
 exit $bad
